@@ -485,7 +485,8 @@ def interleaved_runs(ctx, groups, full_snap=True, steps=8):
 
 
 # ------------------------------------------------------------------ failures
-EXC = [Exception, ValueError, ZeroDivisionError, TypeError, KeyboardInterrupt, SystemExit, GeneratorExit]
+EXC = [Exception, ValueError, ZeroDivisionError, TypeError, KeyboardInterrupt, SystemExit, GeneratorExit,
+       StopIteration, MemoryError, RecursionError, KeyError, OSError]      # (StopIteration: silently ends any for-loop / map it travels through)
 
 
 class CustomBase(BaseException):
